@@ -1,6 +1,6 @@
 """C18 -- the C API behaves like the C++ API on the same operations (three-way: C driver, C++ driver, model)."""
 import os
-import vlib, proofcheck, emcmp, mgrcheck
+import vlib, proofcheck, emcmp, mgrcheck, jobcheck
 
 PROP = 'C18'
 
@@ -116,7 +116,16 @@ def run(tier, seed, replay=None):
                 'rule': 'random scripts in the C-expressible alphabet over 4 run-time described components with every subset of optional functions; distinct = distinct final component tables seen through the C interface',
                 'tierA_failures': len(fa), 'tierB_divergences': len(div), 'samples': [scripts[0][1][:30]]})
     violations = []
-    if fa:
+    # what a C++ PerEntityJob hands its callback (each selected entity once, its own values, null for an optional component the entity
+    # lacks), judged on the C interface's job runs
+    ja = jobcheck.tier_a_jobs(capi, scripts, {'visits'}, no_layout=True)
+    cov['tierA_job_failures'] = len(ja)
+    if ja and not fa:
+        f = ja[0]
+        p = vlib.write_replay(PROP, 'failing_script.txt', '# %s: %s\n# at op %d (%s), through the C interface\n%s\n' %
+                              (f['aspect'], f['what'], f['opn'], f['op'], '\n'.join(sd[f['script']][:f['opn'] + 1])))
+        violations.append((p, ''))
+    elif fa:
         f = fa[0]
         p = vlib.write_replay(PROP, 'failing_script.txt', '# op %d (%s) tag %s\n#   through the C interface  : %s\n#   through the C++ interface: %s\n%s\n' %
                               (f['opn'], f['op'], f['tag'], f['impl'], f['model'], '\n'.join(sd[f['script']][:f['opn'] + 1])))
